@@ -412,3 +412,30 @@ def r12g(model: Model, rr: RuleResult):
         rr.ok("_copy_colr replaces palette 0 by the donor's palette 0 as a whole (or grafts the donor's CPAL)")
     else:
         rr.bad_shape(fi, fi.node, "how _copy_colr transfers the donor palette is not recognised", construct="_copy_colr: palette transfer")
+
+
+@RULES.rule("C12", "R12h", "grafting SVG keeps every donor gid: filler glyphs are inserted gid by gid; CBLC strike templates are deep-copied per run", floor=2)
+def r12h(model: Model, rr: RuleResult):
+    fi = model.func("glue_together", "_copy_svg")
+    wl = [st for st in walk_body(fi) if isinstance(st, ast.While) and isinstance(st.test, ast.Compare) and "len(new_glyph_order)" in norm(st.test) and "svg_gid" in norm(st.test)]
+    outer = [st for st in walk_body(fi) if isinstance(st, ast.For) and "_svg_glyphs(donor)" in norm(st.iter) and any(w in ast.walk(st) for w in wl)]
+    if wl and outer:
+        rr.ok("_copy_svg pads with non-SVG glyphs before EACH SVG glyph until its donor gid is reached (gaps between SVG gids are kept)")
+    else:
+        mins = [c for c in calls_in(fi) if norm(c.func) == "min" and "_svg_glyphs(donor)" in norm(c)]
+        if mins:
+            rr.bad(fi, mins[0], "the new glyph order is built as filler[:first SVG gid] + all SVG glyphs + rest: that keeps donor gids only when the SVG gids form ONE contiguous "
+                   "run; with a coloured .notdef (gids 0, 2, 3, ...) or an empty colour glyph in the middle the glyphs no longer sit at the gids the documents address",
+                   construct="_copy_svg: SVG glyphs packed after the first SVG gid")
+        else:
+            rr.bad_shape(fi, fi.node, "_copy_svg does not pad the glyph order gid by gid", construct="_copy_svg: gid-stable fill")
+    cb = model.func("glue_together", "_copy_cbdt")
+    copies = [c for c in calls_in(cb) if norm(c.func) in ("copy.deepcopy", "copy.copy", "deepcopy") and c.args and "template" in norm(c.args[0])]
+    shallow = [c for c in copies if norm(c.func) == "copy.copy"]
+    if shallow:
+        rr.bad(cb, shallow[0], f"{short(shallow[0])}: the per-run strike / index sub-table shares its nested tables (bitmapSizeTable) with every other run; fontTools writes each run's "
+               f"range and offsets into that one object, so every CBLC record ends up describing the last run", construct=f"_copy_cbdt: {short(shallow[0])}")
+    elif len(copies) >= 2:
+        rr.ok("_copy_cbdt deep-copies the strike and index sub-table templates for every run")
+    else:
+        rr.bad_shape(cb, cb.node, "_copy_cbdt: per-run copies of the strike templates not found", construct="_copy_cbdt: template copies")
